@@ -1218,6 +1218,17 @@ func runRecordPadding(c *simkit.Choice, r *simkit.Rec) {
 			r.Violate("no-fatal-alert", site, fmt.Sprintf("record rejected (%v) without a fatal alert", rerr))
 			return
 		}
+		if mode == 1 || mode == 2 {
+			// a record that fails to decrypt is refused the same way whatever part of it
+			// was wrong - padding or MAC -: bad_record_mac. A distinguishable answer is a
+			// padding oracle.
+			for _, al := range alerts {
+				if al[0] == reftls.AlertFatal && al[1] != 20 {
+					r.Violate("distinguishable-decryption-failure", site, fmt.Sprintf("a record with %s was answered with alert %d (%v); every decryption failure must look like bad_record_mac (20)", map[int]string{1: "a corrupted padding byte", 2: "a corrupted MAC"}[mode], al[1], rerr))
+					return
+				}
+			}
+		}
 		switch mode {
 		case 1:
 			r.Reach(idx(padAttackReach, "bad-padding-byte-rejected"))
